@@ -105,6 +105,23 @@ structure WMeta where
   mtrix : List (Nat × List Int × Bool)
   dbrefs : List (Nat × DbRef)
 
+/-- the sGroup and Z columns of CRYST1: `format!("{:<11}{:>4}", symbol, z)`; "P 1" with Z = 1 without a group -/
+def cryst1Sym (sym : Option Nat) : List Char :=
+  match sym with
+  | some i =>
+    let hm := ((hmSymbol i).getD []).map Char.ofNat
+    let z := natDigits ((zOf i).getD 0)
+    hm ++ List.replicate (11 - hm.length) ' ' ++ List.replicate (4 - z.length) ' ' ++ z
+  | none => S "P 1           1"
+
+/-- the six numeric cells in front of the symbol -/
+def cryst1Head (c : List Int) : List (Nat × List Char) :=
+  [(6, S "CRYST1"), (9, fmtFixed (c[0]?.getD 0) 9 3), (9, fmtFixed (c[1]?.getD 0) 9 3), (9, fmtFixed (c[2]?.getD 0) 9 3),
+   (7, fmtFixed (c[3]?.getD 0) 7 2), (7, fmtFixed (c[4]?.getD 0) 7 2), (7, fmtFixed (c[5]?.getD 0) 7 2), (0, S " ")]
+
+def cryst1Line (lvl : Strictness) (c : List Int) (sym : Option Nat) : List Char :=
+  printLine lvl (cryst1Head c ++ [(0, cryst1Sym sym)])
+
 def savePdb (lvl : Strictness) (p : PDB) (m : WMeta) : List (List Char) :=
   let pl := printLine lvl
   let header := match m.identifier with
@@ -146,15 +163,7 @@ def savePdb (lvl : Strictness) (p : PDB) (m : WMeta) : List (List Char) :=
   let chainMeta := if first.isSome then dbrefL ++ seqadvL ++ seqresL ++ modresL else []
   let cryst := match m.cell with
     | none => []
-    | some c =>
-      let sym : List Char := match m.symmetry with
-        | some i =>
-          let hm := ((hmSymbol i).getD []).map Char.ofNat
-          let z := natDigits ((zOf i).getD 0)
-          hm ++ List.replicate (11 - hm.length) ' ' ++ List.replicate (4 - z.length) ' ' ++ z
-        | none => S "P 1           1"
-      [pl [(6, S "CRYST1"), (9, fmtFixed (c[0]?.getD 0) 9 3), (9, fmtFixed (c[1]?.getD 0) 9 3), (9, fmtFixed (c[2]?.getD 0) 9 3),
-           (7, fmtFixed (c[3]?.getD 0) 7 2), (7, fmtFixed (c[4]?.getD 0) 7 2), (7, fmtFixed (c[5]?.getD 0) 7 2), (0, S " "), (0, sym)]]
+    | some c => [cryst1Line lvl c m.symmetry]
   let origx := match m.origx with
     | some x => matrixLines lvl "ORIGX" x
     | none => if lvl == .strict then matrixLines lvl "ORIGX" identity12' else []
